@@ -12,6 +12,22 @@ import (
 func init() {
 	register("DEBUG", true, func(r *Run, prog *Program) {
 		name := os.Getenv("VERIF_DEBUG_FN")
+		if strings.HasPrefix(name, "INEDGES:") {
+			parts := strings.SplitN(strings.TrimPrefix(name, "INEDGES:"), ".", 2)
+			fn := prog.Method(prog.BexprSSA, parts[0], parts[1], true)
+			if fn == nil {
+				fmt.Println("not found")
+				return
+			}
+			n := prog.CG.Nodes[fn]
+			fmt.Println("node", n != nil)
+			if n != nil {
+				for _, e := range n.In {
+					fmt.Printf("inedge from %s site=%v\n", e.Caller.Func, e.Site)
+				}
+			}
+			return
+		}
 		if name == "GLOBALS" {
 			gm := prog.Globals()
 			for g, v := range gm.st.gcells {
